@@ -1211,3 +1211,27 @@ def run(chk):
     chk.assume('RegExpUtility.get_group / get_group_list / Match.group return the text of the named group; group names '
                'hour/min/sec denote digit groups whose language contains 0 and 00 (the property quantifies over 00:00..23:59:59)')
     chk.assume('callee identity is by attribute name on DateTimeFormatUtil (to_pm, all_str_to_pm); no monkey patching')
+
+
+
+# ---------------------------------------------------------------------------------------------------------------
+# generic rules (lead): cross-cutting necessary conditions scoped to the modules this property is anchored in
+# (sa/generic.py: filter predicates depend on their element; regex group names read by the code exist)
+
+def _generic_rules(chk):
+    import re as _re_
+    from ..index import get_index as _gi
+    from ..consteval import Resources as _Res
+    from .. import generic as _g
+    idx_ = _gi()
+    scope = _re_.compile('^(base_)?(time|datetime)(_|$)(?!period)')
+    flt = lambda name: bool(scope.search(name.rsplit('.', 1)[-1]))
+    _g.rule_group_names(chk, idx_, _Res(idx_), 'C07.groups', 'recognizers_date_time', flt, floor=3)
+
+
+_run_before_generic = run
+
+
+def run(chk):       # noqa: F811
+    _run_before_generic(chk)
+    _generic_rules(chk)
